@@ -517,6 +517,9 @@ func c07Loss(t *testing.T, p *world.PKI, cc cfgCase, mtu int, m world.Mask, seed
 			n.ClearFaults()
 			n.Flush()
 		}
+		// the faults stay in force for what follows the handshake at once (DTLS 1.3: the server's
+		// NewSessionTicket and its acknowledgement), so that post-handshake flights are retransmitted too
+		_ = n.Pump(50*time.Millisecond, func() bool { return false })
 		n.ClearFaults()
 		n.Flush()
 		if !pr.BothOK() {
@@ -530,7 +533,7 @@ func c07Loss(t *testing.T, p *world.PKI, cc cfgCase, mtu int, m world.Mask, seed
 			wr := w.Go(e.Name+".Write", func(*world.Op) error { _, er := e.Conn.Write(marker); return er })
 			_ = n.Pump(3*time.Second, wr.Done)
 		}
-		_ = n.Pump(1500*time.Millisecond, func() bool { return false }) // post-handshake retransmissions, if any
+		_ = n.Pump(3500*time.Millisecond, func() bool { return false }) // post-handshake retransmissions, if any (1 s, then 2 s)
 		n.Flush()
 		dec := pr.NewDecoder()
 		recs := dec.Poll()
@@ -606,10 +609,10 @@ func TestC07(t *testing.T) {
 			}
 		}
 	}
-	lossMTUs := map[string][]int{"13-aes128gcm/cid0": {100, 300}, "12-gcm128/cid0": {100}, "12-clientauth/cid0": {200}}
+	lossMTUs := map[string][]int{"13-aes128gcm/cid0": {100, 300, 1200}, "12-gcm128/cid0": {100}, "12-clientauth/cid0": {200}}
 	lossN, lossK := 14, 1
 	if env.Thorough() {
-		lossMTUs = map[string][]int{"13-aes128gcm/cid0": {100, 200, 300}, "13-aes128gcm/cid4": {200}, "13-chacha/cid0": {150}, "12-gcm128/cid0": {100}, "12-cbc/cid4": {150}, "12-clientauth/cid0": {100, 200}}
+		lossMTUs = map[string][]int{"13-aes128gcm/cid0": {100, 200, 300, 1200}, "13-aes128gcm/cid4": {200, 1200}, "13-chacha/cid0": {150}, "12-gcm128/cid0": {100}, "12-cbc/cid4": {150}, "12-clientauth/cid0": {100, 200}}
 		lossN = 24
 	}
 	lossMasks := checks.EnumMasks(lossN, lossK, []world.Action{world.ActDrop, world.ActHold3, world.ActDup})
